@@ -44,6 +44,11 @@ def bootstrap():
             if os.getpid() == pid:
                 shutil.rmtree(_PRIVATE_TMP, ignore_errors=True)
         atexit.register(_cleanup)
+    import warnings
+    warnings.filterwarnings("ignore")
+    import faulthandler
+    import signal
+    faulthandler.register(signal.SIGUSR1, all_threads=True)
     import mpf
     where = os.path.abspath(mpf.__file__)
     if not where.startswith(REPO + os.sep):
